@@ -291,8 +291,8 @@ func famPlan(tr *Trace, scratch string, seed int64, tier string, workers int) M 
 	if tier == "thorough" {
 		ndst, ntag = 6, 3
 	}
-	if v := os.Getenv("VERIF_PLAN_FULL"); v == "1" {
-		full = true
+	if v := os.Getenv("VERIF_PLAN_FULL"); v == "1" || (tier == "thorough" && v != "0") {
+		full = true // the universe of MC_Plan_full.cfg: 10 shapes x 6 destinations x 3 tags x 2 file_info variants
 	}
 	opts := planOptions(full, ndst, ntag)
 	var rec func(prefix []Entry)
